@@ -11,7 +11,7 @@ import UF.Gen.Facts
     the host is the suffix itself.
   * Third party: there is a source and its registrable domain differs from the request's.
 -/
-namespace UF
+namespace UF.H
 open Bytes
 
 /-- Is `u` inside the URL grammar, and if so what is its host?  (`none` = outside the grammar.) -/
@@ -57,4 +57,23 @@ def refRequest (ext : Ext) (url sourceURL : Bytes) (requestType : Nat) : Option 
            thirdParty := refThirdParty d sd }
   | _, _ => none
 
-end UF
+end UF.H
+
+namespace UF.H
+open Bytes
+
+/-- Side conditions of the URL grammar `scheme "://" host tail`, `tail` being
+    `[":" port] [("/"|"?") rest]`: non-empty scheme without '/' and ':', non-empty host without
+    `/ : ? # @`, and a tail that is empty or starts with one of `: / ?`. -/
+def goodURLParts (scheme host tail : Bytes) : Bool :=
+  !scheme.isEmpty && scheme.all (fun c => c != ch '/' && c != ch ':') &&
+  !host.isEmpty && host.all (fun c => !(c == ch '/' || c == ch ':' || c == ch '?' || c == ch '#' || c == ch '@')) &&
+  (match tail with
+   | [] => true
+   | c :: _ => c == ch '/' || c == ch ':' || c == ch '?')
+
+/-- The PSL oracle answers with a dot-suffix of the hostname (what `publicsuffix.PublicSuffix` does). -/
+def pslIsDotSuffix (ext : Ext) (h : Bytes) : Prop :=
+  h = (ext.psl h).1 ∨ ∃ pre, h = pre ++ ch '.' :: (ext.psl h).1
+
+end UF.H
